@@ -1165,7 +1165,9 @@ class HistRun:
                 if p != coll and oo.exists and oo.tags.get("sync") and oo.member_state() != (o.member_state() if o else None):
                     issued = {t["token"] for t in self.tokens.get(coll, [])}
                     seen = self.tag_states.get(coll, {})
-                    if oo.tags["sync"] not in issued and oo.tags["sync"] not in seen:
+                    # the id of the empty tree is excluded: xandikos itself adds that
+                    # object to every repository, and a diff against it is the (correct) full listing
+                    if oo.tags["sync"] not in issued and oo.tags["sync"] not in seen and oo.tags["sync"] != "4b825dc642cb6eb9a060e54bf8d69288fbee4904":
                         return oo.tags["sync"]
         return None
 
